@@ -54,6 +54,7 @@ type execResult struct {
 	refErr  *EvalError
 	refJ    []CallRec
 	allocs  []int
+	tooBig  bool // the reference evaluation hit its cost bound: no verdict
 }
 
 // execBoth runs the compiled program (or Eval) on a fresh world with the given
@@ -78,6 +79,7 @@ func execBoth(sc *EnvScenario, src string, prog *vm.Program, machine *vm.VM, fau
 	r.refV, r.refErr = ref.Eval(sc.Tree)
 	r.refJ = w2.Journal
 	r.allocs = ref.Allocs
+	r.tooBig = ref.TooBig
 	return r
 }
 
